@@ -337,78 +337,97 @@ func checkKindPositions(c *core.Ctx, k intKind, x *big.Int) {
 		}
 		c.Outcome("exact")
 	}()
-	// positions 2-4: struct field, list element, map key+value, via the holder struct
-	if !c.Begin() {
-		return
-	}
-	c.NontrivialN(1)
-	h := reflect.New(k.holder)
-	h.Elem().FieldByName("F").Set(kv)
-	if f := h.Elem().FieldByName("L"); f.IsValid() {
-		sl := reflect.MakeSlice(f.Type(), 3, 3)
-		sl.Index(1).Set(kv)
-		f.Set(sl)
-	}
-	m := reflect.MakeMap(h.Elem().FieldByName("M").Type())
-	m.SetMapIndex(kv, kv)
-	h.Elem().FieldByName("M").Set(m)
-	tm, nm, p := Maps(h.Interface())
-	if p != "" {
-		report("struct", "maps", "panic", p, "")
-		return
-	}
-	enc := Encode(h.Interface(), nm)
-	if enc.Panic != "" {
-		report("struct", "encode", "panic", enc.Panic, "")
-		return
-	}
-	if enc.Err != nil {
+	// positions 2-4: struct field, list element, map key+value - each in a holder of its own, so that a
+	// refusal at one position cannot hide what happens at another
+	for _, pos := range []string{"field", "element", "entry"} {
+		if !c.Begin() {
+			continue
+		}
+		c.NontrivialN(1)
+		h := reflect.New(k.holder)
+		switch pos {
+		case "field":
+			h.Elem().FieldByName("F").Set(kv)
+		case "element":
+			f := h.Elem().FieldByName("L")
+			if !f.IsValid() {
+				continue
+			}
+			sl := reflect.MakeSlice(f.Type(), 3, 3)
+			sl.Index(1).Set(kv)
+			f.Set(sl)
+		case "entry":
+			m := reflect.MakeMap(h.Elem().FieldByName("M").Type())
+			m.SetMapIndex(kv, kv)
+			h.Elem().FieldByName("M").Set(m)
+		}
+		tm, nm, p := Maps(h.Interface())
+		if p != "" {
+			report(pos, "maps", "panic", p, "")
+			continue
+		}
+		enc := Encode(h.Interface(), nm)
+		if enc.Panic != "" {
+			report(pos, "encode", "panic", enc.Panic, "")
+			continue
+		}
+		if enc.Err != nil {
+			if fits {
+				report(pos, "encode", "error", enc.Err.Error(), "")
+			}
+			c.Outcome("encode-error")
+			continue
+		}
 		if fits {
-			report("struct", "encode", "error", enc.Err.Error(), "")
+			want := wireShortest(k, x)
+			need := 1
+			if pos == "entry" {
+				need = 2
+			}
+			if bytes.Count(enc.Bytes, want) < need {
+				report(pos, "encode", "form", "field/element/entry not in the shortest form", fmt.Sprintf("bytes %x shortest %x", enc.Bytes, want))
+				continue
+			}
 		}
-		c.Outcome("encode-error")
-		return
-	}
-	if fits {
-		// the shortest form of the number must occur in the stream (field, element, key, value)
-		if want := wireShortest(k, x); bytes.Count(enc.Bytes, want) < 3 {
-			report("struct", "encode", "form", "field/element/entry not in the shortest form", fmt.Sprintf("bytes %x shortest %x", enc.Bytes, want))
-			return
+		dec := Decode(enc.Bytes, tm)
+		if !dec.OK() {
+			report(pos, "decode", "error", fmt.Sprint(dec.Err, dec.Panic), hexs(enc.Bytes))
+			continue
 		}
-	}
-	dec := Decode(enc.Bytes, tm)
-	if !dec.OK() {
-		report("struct", "decode", "error", fmt.Sprint(dec.Err, dec.Panic), hexs(enc.Bytes))
-		return
-	}
-	dv := reflect.ValueOf(dec.Val)
-	if dv.Kind() != reflect.Ptr || dv.Elem().Type() != k.holder {
-		report("struct", "decode", "type", fmt.Sprintf("decoded %T", dec.Val), "")
-		return
-	}
-	d := dv.Elem()
-	if g := bigOf(d.FieldByName("F")); g.Cmp(x) != 0 {
-		report("field", "decode", "altered", "integer silently altered: a different number comes back and no error was reported", fmt.Sprintf("field F = %s", g))
-		return
-	}
-	if f := d.FieldByName("L"); f.IsValid() {
-		if f.Len() != 3 || bigOf(f.Index(1)).Cmp(x) != 0 || bigOf(f.Index(0)).Sign() != 0 {
-			report("element", "decode", "altered", "integer silently altered: a different number comes back and no error was reported", fmt.Sprintf("list = %v", f.Interface()))
-			return
+		dv := reflect.ValueOf(dec.Val)
+		if dv.Kind() != reflect.Ptr || dv.Elem().Type() != k.holder {
+			report(pos, "decode", "type", fmt.Sprintf("decoded %T", dec.Val), "")
+			continue
 		}
-	}
-	dm := d.FieldByName("M")
-	if dm.Len() != 1 {
-		report("entry", "decode", "altered", "map entry lost or duplicated", fmt.Sprintf("map = %v", dm.Interface()))
-		return
-	}
-	for _, key := range dm.MapKeys() {
-		if bigOf(key).Cmp(x) != 0 || bigOf(dm.MapIndex(key)).Cmp(x) != 0 {
-			report("entry", "decode", "altered", "integer silently altered: a different number comes back and no error was reported", fmt.Sprintf("map = %v", dm.Interface()))
-			return
+		d := dv.Elem()
+		altered := "integer silently altered: a different number comes back and no error was reported"
+		switch pos {
+		case "field":
+			if g := bigOf(d.FieldByName("F")); g.Cmp(x) != 0 {
+				report(pos, "decode", "altered", altered, fmt.Sprintf("field F = %s", g))
+				continue
+			}
+		case "element":
+			f := d.FieldByName("L")
+			if f.Len() != 3 || bigOf(f.Index(1)).Cmp(x) != 0 || bigOf(f.Index(0)).Sign() != 0 {
+				report(pos, "decode", "altered", altered, fmt.Sprintf("list = %v", f.Interface()))
+				continue
+			}
+		case "entry":
+			dm := d.FieldByName("M")
+			bad := dm.Len() != 1
+			for _, key := range dm.MapKeys() {
+				if bigOf(key).Cmp(x) != 0 || bigOf(dm.MapIndex(key)).Cmp(x) != 0 {
+					bad = true
+				}
+			}
+			if bad {
+				report(pos, "decode", "altered", altered, fmt.Sprintf("map = %v", dm.Interface()))
+				continue
+			}
 		}
+		c.Outcome("exact")
 	}
-	c.Outcome("exact")
 }
 
 func init() {
